@@ -83,9 +83,10 @@ def build(ctx):
 # TLC: exhaustive model check; a violated invariant in the model is a prediction (logged), it is
 # removed and the run repeated so that the remaining invariants are checked on the full state space
 # ----------------------------------------------------------------------------------------------
-def model_check(ctx, tag, cst, invs, props=(), timeout=1500, workers=None, heap="6g"):
-    invs = list(invs)
-    predictions = []
+def model_check(ctx, tag, cst, invs, props=(), timeout=1500, workers=None, heap="6g", skip=()):
+    """skip: invariants already predicted to fail by a smaller run (not checked again)"""
+    invs = [i for i in invs if i not in skip]
+    predictions = list(skip)
     while True:
         d = vlib.prepare_spec_dir(ctx, "mc-" + tag)
         mod, cfg = vlib.write_model(d, MODULE, "B_mc", cst, spec="Spec" if props else None,
@@ -97,7 +98,7 @@ def model_check(ctx, tag, cst, invs, props=(), timeout=1500, workers=None, heap=
             ctx.stage("model-check-" + tag, distinct=r.distinct, generated=r.generated, depth=r.depth, wall=round(r.wall, 1),
                       invariants=len(invs), predicted_violations=predictions)
             return r, predictions
-        if r.kind == "invariant" and r.violated in invs and len(predictions) < 8:
+        if r.kind == "invariant" and r.violated in invs and len(predictions) < 10:
             vlib.log("model-level counterexample for %s in %s (a prediction; the real code decides)" % (r.violated, tag))
             predictions.append(r.violated)
             invs.remove(r.violated)
